@@ -10,11 +10,12 @@ import numpy as np
 from vf import core
 from vf.core import CorrResult, Disagreement, Failure, coq_z, coq_list, coq_string, coq_bool
 from translator import pseudo as tr
+from translator import makers as trm
 
 ID = "C04"
 PROPS = "props/C04.v"
-GENERATED = [tr.OUT]
-CASE_DEPS = ["model/Lang.vo"]
+GENERATED = [tr.OUT, trm.OUT]
+CASE_DEPS = ["model/Lang.vo", "model/Makers.vo"]
 ALLOWED_AXIOMS = {
     "sig_forall_dec", "sig_not_dec", "functional_extensionality_dep", "classic",
     "ClassicalDedekindReals.sig_forall_dec", "ClassicalDedekindReals.sig_not_dec",
@@ -27,6 +28,10 @@ TRUSTED = [
     "the tree) and Python's ast module (xtring -> tree)",
     "character-level regular expressions, the parsimonious PEG grammars and Jinja are glue: exercised by the "
     "correspondence, not modelled",
+    "translator/makers.py (statement shapes of makers.make_function / remake_function / _prepare_globals, "
+    "aldi.adaptations.add_function_adaptations_to_context, PlainEquator._create_function; module-level state of makers.py "
+    "and adaptations.py enumerated, anything new fails closed -> gen/MakersGen.v); Python's exec and function objects are a "
+    "black box of model/Makers.v (Section variable exec_def)",
 ]
 ASSUMPTIONS = [
     "pseudofunction arguments have at most one level of parentheses, no commas, no nested pseudofunctions and no "
@@ -58,7 +63,13 @@ MANIFEST = {
                   "conditionals, substitutions, context values; half of the models are compiled as SESSIONS in one Python "
                   "process (renderings, then variants sharing the equation text but with reordered declarations, extra names "
                   "declared first, another context for the identical source text, another substitution body, another kind), so "
-                  "that state leaking from one compilation into the next is seen.",
+                  "that state leaking from one compilation into the next is seen.  Compiled functions (model/Makers.v, shapes "
+                  "and module-level state of makers.py / aldi/adaptations.py / PlainEquator._create_function regenerated on every "
+                  "run, a new module-level table fails closed): in every session of make_function calls each call returns the "
+                  "function, text and globals determined by its own (text, context); a user function name resolves to the object "
+                  "of that call's context (adaptations win); remake_function gives the same function; a table keyed by the text "
+                  "alone is refuted.  Tie: sequences of make_function / remake_function calls sharing texts and context keys, "
+                  "observed after the whole session (text, globals entries by object identity), equal the model exactly.",
     "level_note": "partial: the character-level regular expressions, the two PEG grammars (parsimonious), Jinja, white space and "
                   "comments are glue exercised by the correspondence, not modelled; the renderer of the harness and Python's ast "
                   "are trusted for the text <-> tree reading; semantic theorems are over a commutative ring (no rounding); "
@@ -98,7 +109,14 @@ KW_SPELL = {
 
 
 def translate(ctx):
-    tr.run()
+    errors = []
+    for t in (tr, trm):
+        try:
+            t.run()
+        except core.TranslatorError as e:
+            errors.append(str(e))
+    if errors:
+        raise core.TranslatorError(" | ".join(errors))
 
 
 # =====================================================================================
@@ -1019,7 +1037,7 @@ def unroll(model):
                 return None if s is None else dict(s, tails=[("item", t) for t in py_resolve(s["tails"], ctx)])
             it = ("eqn", it[1], flat(it[2]), flat(it[3]))
         items.append(("item", it))
-    return {"context": ctx, "nodes": items}
+    return with_funcs(model, {"context": ctx, "nodes": items})
 
 
 # =====================================================================================
@@ -1211,16 +1229,92 @@ class NotInLanguage(Exception):
     pass
 
 
+# The preparser context also carries the user functions called by the equations.  They are DATA of the structured
+# model (model["funcs"] = {"cf1": [a, b], "cf2": [a, b]}: cf1(x) = x*a + b, cf2(x, y) = a*x + b*y), so that two models of
+# one session can bind the same function name to different callables while their source text is the same.
+DEFAULT_FUNCS = {"cf1": [0.5, 1.0], "cf2": [1.0, -2.0]}
+CF1_CHOICES = [[0.5, 1.0], [2.0, 0.0], [0.25, 2.0], [1.5, 0.5], [3.0, 1.0], [1.0, 0.75]]
+CF2_CHOICES = [[1.0, -2.0], [0.5, 1.0], [2.0, 0.5], [1.0, 1.0], [-1.0, 2.0], [0.25, -0.5]]
+
+
+def make_user_function(name, coef):
+    a, b = float(coef[0]), float(coef[1])
+    if name == "cf1":
+        def cf1(x):
+            return x * a + b
+        return cf1
+
+    def cf2(x, y):
+        return a * x + b * y
+    return cf2
+
+
+def model_funcs(model):
+    return dict(DEFAULT_FUNCS, **(model.get("funcs") or {}))
+
+
 def _cf1(x):
-    return x * 0.5 + 1
+    return make_user_function("cf1", DEFAULT_FUNCS["cf1"])(x)
 
 
 def _cf2(x, y):
-    return x - 2 * y
+    return make_user_function("cf2", DEFAULT_FUNCS["cf2"])(x, y)
 
 
 def impl_context(model):
-    return dict(model["context"], cf1=_cf1, cf2=_cf2)
+    """a fresh dict with fresh callables on every call (nothing is shared between two compilations)"""
+    return dict(model["context"], **{n: make_user_function(n, c) for n, c in model_funcs(model).items()})
+
+
+def with_funcs(model, new):
+    """the derived model keeps the user functions of the model it was derived from"""
+    if model.get("funcs") is not None and "funcs" not in new:
+        new["funcs"] = model["funcs"]
+    return new
+
+
+def calls_user_function(model) -> bool:
+    def fe(e):
+        if isinstance(e, (list, tuple)):
+            if len(e) >= 2 and e[0] == "call" and e[1] in ("cf1", "cf2"):
+                return True
+            return any(fe(x) for x in e)
+        if isinstance(e, dict):
+            return any(fe(x) for x in e.values())
+        return False
+    return fe(model["nodes"])
+
+
+def other_funcs(r, funcs):
+    """another binding of BOTH names (so that whichever the equations call differs)"""
+    cur = dict(DEFAULT_FUNCS, **(funcs or {}))
+    return {"cf1": r.choice([c for c in CF1_CHOICES if c != list(cur["cf1"])]),
+            "cf2": r.choice([c for c in CF2_CHOICES if c != list(cur["cf2"])])}
+
+
+def inject_user_calls(model, r):
+    """wrap the right-hand side of some equations (dynamic and steady variants) into a call of a user function"""
+    hit = [False]
+
+    def fs(sd):
+        if sd is None or r.random() < 0.4:
+            return sd
+        hit[0] = True
+        if r.random() < 0.6:
+            return dict(sd, rhs=("call", "cf1", [sd["rhs"]]))
+        return dict(sd, rhs=("call", "cf2", [sd["rhs"], sd["lhs"]]))
+
+    def fn(n):
+        if n[0] == "item":
+            it = n[1]
+            if it[0] == "eqn":
+                return ("item", ("eqn", it[1], fs(it[2]), fs(it[3])))
+            return n
+        if n[0] == "for":
+            return ("for", n[1], n[2], [fn(x) for x in n[3]])
+        return ("if", n[1], [fn(x) for x in n[2]], [fn(x) for x in n[3]] if n[3] is not None else None)
+    new = dict(model, nodes=[fn(n) for n in model["nodes"]])
+    return new if hit[0] else model
 
 
 def parse_number(v):
@@ -1486,8 +1580,12 @@ def session_variants(model, r, feats):
             swapped = True
     if swapped:
         out.append(("other-kind", {"context": ctx, "nodes": [n for u in units for n in u]}))
+    # V6: the same text and the same preparser values, the user functions bound to other callables
+    if calls_user_function(model):
+        out.append(("other-functions", dict(model, funcs=other_funcs(r, model.get("funcs")))))
     good = []
     for what, m in out:
+        m = with_funcs(model, m)
         if "shift-bare" in feats:
             m = _atomise_shift(m)
         if valid_model(m):
@@ -1500,14 +1598,23 @@ def gen_session(rng, feats, n_random=0):
     import random
     r = random.Random(rng.getrandbits(64))
     base = gen_case(r, feats)
+    rf = random.Random(r.getrandbits(64))
+    if rf.random() < 0.6:
+        # user functions of the context in the equations, bound to callables of this model's own
+        injected = inject_user_calls(base, rf)
+        if valid_model(injected):
+            base = injected
+    if calls_user_function(base) and rf.random() < 0.7:
+        base = dict(base, funcs={"cf1": rf.choice(CF1_CHOICES), "cf2": rf.choice(CF2_CHOICES)})
     sess = [("rendering", base, Render(random.Random(r.getrandbits(64)), feats=feats).source(base)) for _ in range(n_random)]
     base_seed = r.getrandbits(64)
     sess.append(("base", base, Render(random.Random(base_seed), feats=feats, stable=True).source(base)))
     variants = session_variants(base, r, feats)
     r.shuffle(variants)
+    variants.sort(key=lambda v: v[0] != "other-functions")     # other callables for the same text: always part of it
     for what, m in variants[:r.choice([2, 3])]:
         # another context: the source text is identical to the base, character for character
-        seed = base_seed if what == "other-context" else r.getrandbits(64)
+        seed = base_seed if what in ("other-context", "other-functions") else r.getrandbits(64)
         sess.append((what, m, Render(random.Random(seed), feats=feats, stable=True).source(m)))
     if r.random() < 0.5:      # and the base once more at the end of the session
         sess.append(("base-again", base, Render(random.Random(base_seed), feats=feats, stable=True).source(base)))
@@ -1575,7 +1682,7 @@ def malform(model, g, r):
         nodes += [("item", ("kw", "qty", "TV", 0)), q("zz_v"), ("item", ("kw", "eqn", "T", 0)),
                   ("item", ("eqn", [], {"lhs": ("name", lit("zz_v"), ("z", 0, "curly")), "assign": False,
                                         "rhs": ("name", lit("zz_nowhere"), ("z", -1, "curly")), "tails": []}, None))]
-    return {"context": model["context"], "nodes": nodes, "malformed": kind}
+    return with_funcs(model, {"context": model["context"], "nodes": nodes, "malformed": kind})
 
 
 def _atomise_shift(model):
@@ -1613,7 +1720,7 @@ def _atomise_shift(model):
         if n[0] == "for":
             return ("for", n[1], n[2], [fn(x) for x in n[3]])
         return ("if", n[1], [fn(x) for x in n[2]], [fn(x) for x in n[3]] if n[3] is not None else None)
-    return {"context": model["context"], "nodes": [fn(n) for n in model["nodes"]]}
+    return with_funcs(model, {"context": model["context"], "nodes": [fn(n) for n in model["nodes"]]})
 
 
 def shard_text(cases) -> str:
@@ -1689,6 +1796,158 @@ def model_stats(model, dist):
         elif k == "ctx":
             dist["context_values"] += 1
     walk(model["nodes"], 0)
+
+
+# ------------------------------------------------------------------ makers sessions (model/Makers.v)
+MK_NAMES = ["__equator", "__simulate_level", "__simulate_residual", "fn_1"]
+MK_ARGS = [["x", "t"], ["x"], ["x", "t", "lhs"], []]
+MK_EXPRS = ["(f(x[(0, t)]) + g(x[(1, t-1)]) , )", "(-(x[(0, t)])+cf1(x[(1, t)]) , )", "log(x) + f(x)", "(h(1) , g(2) , )",
+            "(-(x[(0, t)])+x[(0, t-1)]**2  ,  -(x[(1, t)])+cf2(x[(0, t)], 3) , )", "0"]
+MK_KEYS = ["f", "g", "h", "cf1", "cf2", "log", "maximum", "__builtins__", "sqrt", "beta", "np"]
+
+
+class _Obj:
+    """an object a context holds (a user function, a value): only its identity matters"""
+    def __init__(self, tag):
+        self.tag = tag
+
+    def __call__(self, *a):
+        return self.tag
+
+
+def gen_makers_session(r):
+    """[(func_name, args, expression, [(key, tag)] | None)]: few texts and few keys, so that requests of a session share
+    their text and/or their context keys while the objects differ"""
+    n = r.choice([2, 3, 3, 4, 5, 6])
+    exprs = r.sample(MK_EXPRS, r.choice([1, 2, 2, 3]))
+    names = r.sample(MK_NAMES, r.choice([1, 1, 2]))
+    args = r.choice(MK_ARGS)
+    out, tag = [], 0
+    shared = None
+    for _ in range(n):
+        q = r.random()
+        if q < 0.08:
+            cx = None
+        elif q < 0.14:
+            cx = []
+        elif q < 0.3 and shared is not None:
+            cx = list(shared)               # the very same objects under the same keys
+        else:
+            cx = []
+            for k in r.sample(MK_KEYS, r.randint(1, 4)):
+                tag += 1
+                cx.append((k, f"<obj {tag}>"))
+            shared = cx
+        out.append((r.choice(names), list(args) if r.random() < 0.85 else r.choice(MK_ARGS), r.choice(exprs), cx))
+    return out
+
+
+def run_makers_session(sess):
+    """the implementation on the session, observed AFTER the whole session: per call the text, the entries of the
+    returned globals and of the globals of the returned function (objects named by their tags); then remake_function"""
+    import irispie.makers as mk
+    import irispie.aldi.adaptations as ad
+    objs = {}
+
+    def ctx_of(cx):
+        if cx is None:
+            return None
+        return {k: objs.setdefault(t, _Obj(t)) for k, t in cx}
+    ctxs = [ctx_of(cx) for _n, _a, _e, cx in sess]
+    results = []
+    for (name, args, expr, _cx), c in zip(sess, ctxs):
+        try:
+            results.append(mk.make_function(name, tuple(args), expr, c))
+        except Exception as e:  # noqa
+            return {"err": f"make_function raises {type(e).__name__}: {e}"[:200]}
+
+    def items(d, func, skip=None):
+        out = []
+        for k, v in d.items():
+            if k == skip:
+                continue
+            if isinstance(v, _Obj):
+                out.append((k, v.tag))
+            elif v is func:
+                out.append((k, f"<function {func.__name__}>"))
+            elif callable(v) and getattr(ad, k, None) is v:
+                out.append((k, "adapt:" + k))
+            elif isinstance(v, dict) and not v:
+                out.append((k, "{}"))
+            else:
+                out.append((k, f"<unknown {type(v).__name__}>"))
+        return out
+    obs, obs_remake, unchanged = [], [], True
+    for (name, args, expr, cx), c, (func, func_str, globals_) in zip(sess, ctxs, results):
+        obs.append((func_str, items(globals_, func), items(func.__globals__, func, skip=name)))
+        f2 = mk.remake_function(name, func_str, c)
+        obs_remake.append((func_str, items(globals_, func), items(f2.__globals__, f2, skip=name)))
+        if c is not None and [(k, v.tag) for k, v in c.items()] != list(cx):
+            unchanged = False
+    return {"make": obs, "remake": obs_remake, "context_unchanged": unchanged}
+
+
+def _cq_alist(l):
+    return "[" + "; ".join(f"({coq_string(k)}, {coq_string(v)})" for k, v in l) + "]"
+
+
+def makers_shard(sessions_obs) -> str:
+    L = ["From Coq Require Import String List.", "From Verif Require Import lib.MakersSyntax gen.MakersGen model.Makers.",
+         "Import ListNotations.", "Open Scope string_scope."]
+    for k, (sess, ob) in enumerate(sessions_obs):
+        reqs = "; ".join(f"mkReq SV {coq_string(n)} [{'; '.join(coq_string(a) for a in args)}] {coq_string(e)} {_cq_alist(cx or [])}"
+                         for n, args, e, cx in sess)
+        L.append(f"Definition reqs_{k} : list s_request := [{reqs}].")
+        for which in ("make", "remake"):
+            im = "; ".join(f"({coq_string(s0)}, {_cq_alist(g)}, {_cq_alist(fg)})" for s0, g, fg in ob[which])
+            L.append(f"Eval vm_compute in obs_failing (s_session reqs_{k}) [{im}] 0.")
+    return "\n".join(L) + "\n"
+
+
+def makers_correspondence(ctx, res: CorrResult):
+    """case kind 'makers session': the executable session model (vm_compute) against makers.make_function /
+    remake_function on the same sequences of calls"""
+    import random
+    r = random.Random(ctx.rng.getrandbits(64))
+    n = ctx.scale(40, 2000)
+    sessions = [gen_makers_session(r) for _ in range(n)]
+    core.use_repo_in_process()
+    observed = [run_makers_session(s) for s in sessions]
+    calls = sum(len(s) for s in sessions)
+    same_text = sum(1 for s in sessions if len({(a, tuple(b), c) for a, b, c, _ in s}) < len(s))
+    res.distribution["makers_sessions"] = {"sessions": n, "calls": calls, "sessions_with_a_repeated_text": same_text,
+                                           "remake_function_calls": calls}
+    res.evaluations += 2 * calls
+    res.distinct_nontrivial += len({repr(s) for s in sessions if len(s) >= 2})
+    good = []
+    for s, ob in zip(sessions, observed):
+        if "err" in ob:
+            res.disagreements.append(Disagreement("makers session: the implementation raises", {"calls": s}, "a result per call", ob["err"]))
+        else:
+            if not ob["context_unchanged"]:
+                res.disagreements.append(Disagreement("makers session: make_function changes the context dict it is given",
+                                                      {"calls": s}, "unchanged", "changed"))
+            good.append((s, ob))
+    per = 10
+    shards = [good[i:i + per] for i in range(0, len(good), per)]
+    results = core.run_cases(ctx, [makers_shard(sh) for sh in shards], prefix="makers")
+    res.shards = (res.shards or 0) + len(shards)
+    for k, (ok, out) in enumerate(results):
+        if not ok:
+            res.disagreements.append(Disagreement(f"makers shard {k} does not evaluate", None, out[-800:], None))
+            continue
+        bodies = core.parse_eval_lists(out)
+        if len(bodies) != 2 * len(shards[k]):
+            res.disagreements.append(Disagreement(f"makers shard {k}: unparsable output", None, out[-600:], None))
+            continue
+        for i, (s, ob) in enumerate(shards[k]):
+            for j, which in enumerate(("make", "remake")):
+                bad = core.parse_nat_list(bodies[2 * i + j])
+                if bad:
+                    res.disagreements.append(Disagreement(
+                        f"makers session: {which}_function, call {bad[0] + 1} of {len(s)}: text / globals of the function differ "
+                        f"from the model (the function determined by this call's own text and context)",
+                        {"calls": s, "differing_calls": bad}, "model/Makers.v s_session", ob[which][bad[0]] if bad[0] < len(ob[which]) else None))
 
 
 def correspondence(ctx) -> CorrResult:
@@ -1775,6 +2034,7 @@ def correspondence(ctx) -> CorrResult:
                 {"source": s, "context": m["context"], "model": m, "compiled_before_in_the_same_process": before},
                 "Coq model result differs",
                 o.get("err") or {"xtrings": o["xtrings"], "quantities": o["quantities"]}))
+    makers_correspondence(ctx, res)
     return res
 
 
@@ -1786,6 +2046,9 @@ NPF = {"log": np.log, "exp": np.exp, "sqrt": np.sqrt, "abs": np.abs, "logistic":
        "maximum": np.maximum, "minimum": np.minimum, "cf1": _cf1, "cf2": _cf2}
 PSEUDO_DEFAULT = {"shift": -1, "diff": -1, "diff_log": -1, "difflog": -1, "pct": -1, "roc": -1,
                   "mov_sum": -4, "movsum": -4, "mov_avg": -4, "movavg": -4, "mov_prod": -4, "movprod": -4}
+
+
+_CUR_FUNCS = {}     # the user functions of the model being evaluated by the reference (set by check_equations)
 
 
 def ref_eval(e, env, ctx, subs, shift=0):
@@ -1809,7 +2072,8 @@ def ref_eval(e, env, ctx, subs, shift=0):
             return {"Add": lambda: a + b, "Sub": lambda: a - b, "Mul": lambda: a * b, "Div": lambda: a / b,
                     "Pow": lambda: np.float64(a) ** b}[e[1]]()
         if k == "call":
-            return NPF[e[1]](*[ref_eval(a, env, ctx, subs, shift) for a in e[2]])
+            fn = _CUR_FUNCS[e[1]] if e[1] in _CUR_FUNCS else NPF[e[1]]
+            return fn(*[ref_eval(a, env, ctx, subs, shift) for a in e[2]])
         if k == "subs":
             return ref_eval(subs[e[1]], env, ctx, subs, shift)
         if k == "pseudo":
@@ -1921,13 +2185,15 @@ def _same(a, b, tol=1e-8):
     return bool(np.all(np.where(bad_a | bad_b, bad_a & bad_b, ok)))
 
 
-def check_model(model, src, rng_seed, key_prefix="") -> list:
-    """All property checks for one source; returns Failures."""
+def check_model(model, src, rng_seed, key_prefix="", alive=None) -> list:
+    """All property checks for one source; returns Failures.  alive: list that receives the compiled model (kept by the
+    caller to evaluate it again later in the session)"""
     import irispie as ir
     fails = []
     ref = reference_model(model)
-    inp = {"source": src, "context": model["context"], "model": model, "data_seed": rng_seed}
-    repro = "irispie.Simultaneous.from_string(source, context=context)"
+    inp = {"source": src, "context": model["context"], "functions": model_funcs(model), "model": model, "data_seed": rng_seed}
+    repro = ("irispie.Simultaneous.from_string(source, context=context | {cf1: lambda x: x*a1+b1, cf2: lambda x, y: a2*x+b2*y}) "
+             "with [a1, b1], [a2, b2] = functions['cf1'], functions['cf2']")
     try:
         m = ir.Simultaneous.from_string(src, context=impl_context(model))
     except Exception as e:  # noqa
@@ -1951,7 +2217,24 @@ def check_model(model, src, rng_seed, key_prefix="") -> list:
     if {k: bool(v) for k, v in ls.items()} != want_ls:
         fails.append(Failure(key_prefix + "quantities:log-status", "get_log_status() differs from the !log-variables declaration",
                              inp, {k: bool(v) for k, v in ls.items()}, want_ls, repro + ".get_log_status()"))
-    # 2. equations evaluate to rhs - lhs as written, on arbitrary data
+    fails += check_equations(m, model, ref, inp, rng_seed, key_prefix, repro)
+    if alive is not None:
+        alive.append((m, model, ref, inp, rng_seed, repro))
+    return fails
+
+
+def check_equations(m, model, ref, inp, rng_seed, key_prefix, repro) -> list:
+    """2. equations evaluate to rhs - lhs as written, on arbitrary data, with the user functions of THIS model's context"""
+    global _CUR_FUNCS
+    _CUR_FUNCS = {n: make_user_function(n, c) for n, c in model_funcs(model).items()}
+    try:
+        return _check_equations(m, model, ref, inp, rng_seed, key_prefix, repro)
+    finally:
+        _CUR_FUNCS = {}
+
+
+def _check_equations(m, model, ref, inp, rng_seed, key_prefix, repro) -> list:
+    fails = []
     name_to_qid = m.create_name_to_qid()
     nq = len(name_to_qid)
     ctx, subs = ref["context"], ref["subs"]
@@ -2084,22 +2367,84 @@ def sweep_model():
     return {"context": {}, "nodes": nodes + eqs}, what
 
 
+def _session_input(sess, j, seed, f):
+    return {"session": [{"what": w, "source": s0, "context": m0["context"], "functions": model_funcs(m0), "model": m0}
+                        for w, m0, s0 in sess[:j + 1]],
+            "failing": j, "data_seed": seed, "detail": {k: v for k, v in (f.input or {}).items()
+                                                        if k in ("equation", "human", "xtring")}}
+
+
+SESSION_REPRO = ("in ONE Python process: models = [irispie.Simultaneous.from_string(s['source'], context=s['context'] | "
+                 "{'cf1': lambda x: x*a1+b1, 'cf2': lambda x, y: a2*x+b2*y}) for s in input['session']] with "
+                 "[a1, b1], [a2, b2] = s['functions']['cf1'], s['functions']['cf2']; check models[input['failing']]")
+
+
 def check_session(sess, seed, key_prefix="session:"):
-    """compile and check the sources of a session one after the other in this process; a failure names the source
-    and carries the whole sequence compiled so far as its input"""
+    """compile and check the sources of a session one after the other in this process, all models kept alive; then
+    evaluate every model of the session once more (last compiled first: what was compiled later must not have changed
+    it), and a deep copy of it.  A failure names the source and carries the whole sequence compiled so far as its input"""
+    import copy
     out = []
+    alive = []
     for j, (what, model, src) in enumerate(sess):
-        fs = check_model(model, src, seed + j)
+        fs = check_model(model, src, seed + j, alive=alive)
         if fs:
             f = fs[0]
             alone = "" if j == 0 else " (source %d of a session: %s of the model compiled first)" % (j + 1, what)
-            inp = {"session": [{"what": w, "source": s0, "context": m0["context"], "model": m0} for w, m0, s0 in sess[:j + 1]],
-                   "failing": j, "data_seed": seed, "detail": {k: v for k, v in (f.input or {}).items()
-                                                               if k in ("equation", "human", "xtring")}}
-            out.append(Failure((key_prefix if j > 0 else "") + f.key, f.what + alone, inp, f.observed, f.required,
-                               "in ONE Python process: for s in input['session']: "
-                               "irispie.Simultaneous.from_string(s['source'], context=s['context']); check the last one"))
-            break
+            # a later model that has the text of an earlier one and other callables for the user functions: own key
+            pre = "" if j == 0 else (key_prefix + "functions:" if what == "other-functions" else key_prefix)
+            out.append(Failure(pre + f.key, f.what + alone, _session_input(sess, j, seed, f),
+                               f.observed, f.required, SESSION_REPRO))
+            return out
+    if len(alive) != len(sess):
+        return out
+    for j in reversed(range(len(sess))):
+        m, model, ref, inp, rng_seed, repro = alive[j]
+        for how, obj in (("alive", lambda: m), ("copy", lambda: copy.deepcopy(m))):
+            if how == "alive" and j == len(sess) - 1:
+                continue
+            try:
+                fs = check_equations(obj(), model, ref, inp, rng_seed, "", repro)
+            except Exception as e:  # noqa
+                fs = [Failure("eval:raises", f"{type(e).__name__}: {str(e)[:200]}", inp)]
+            if fs:
+                f = fs[0]
+                note = (" (source %d of %d of a session, evaluated again after the later ones were compiled)" % (j + 1, len(sess))
+                        if how == "alive" else " (deep copy of model %d of %d of a session)" % (j + 1, len(sess)))
+                inp2 = _session_input(sess, len(sess) - 1, seed, f)
+                inp2["failing"], inp2["how"] = j, how
+                out.append(Failure(f"{key_prefix}{how}:{f.key}", f.what + note, inp2, f.observed, f.required,
+                                   SESSION_REPRO + (" after all of them were created" if how == "alive" else
+                                                    " on copy.deepcopy of it")))
+                return out
+    return out
+
+
+def functions_probe():
+    """fixed session: the SAME source text four times, the context binding cf1 / cf2 to other callables each time"""
+    def nm(n, k=0):
+        return ("name", lit(n), ("z", k, "curly"))
+
+    def q(n):
+        return ("item", ("qty", [], lit(n)))
+
+    def eq(lhs, rhs, steady=None):
+        sd = None if steady is None else {"lhs": lhs, "assign": False, "rhs": steady, "tails": []}
+        return ("item", ("eqn", [], {"lhs": lhs, "assign": False, "rhs": rhs, "tails": []}, sd))
+    B = lambda o, a, b: ("bin", o, "caret", a, b)   # noqa
+    kw = lambda k, x: ("item", ("kw", k, x, 0))   # noqa
+    eqs = [eq(nm("y"), B("Add", B("Add", B("Mul", nm("a"), nm("y", -1)), ("call", "cf1", [nm("b")])), nm("e"))),
+           eq(nm("r"), B("Add", B("Mul", nm("b"), nm("r", 1)), ("call", "cf2", [nm("y"), nm("r", -1)])),
+              ("call", "cf1", [nm("y", -1)]))]
+    nodes = [kw("qty", "TV"), q("y"), q("r"), kw("qty", "P"), q("a"), q("b"), kw("qty", "TS"), q("e"), kw("eqn", "T")] + eqs
+    import random
+    out = []
+    for i, (what, funcs) in enumerate([("base", None), ("other-functions", {"cf1": [2.0, 0.0], "cf2": [0.5, 1.0]}),
+                                       ("other-functions", {"cf1": [0.25, 2.0], "cf2": [1.0, 1.0]}), ("base-again", None)]):
+        m = {"context": {}, "nodes": nodes}
+        if funcs:
+            m["funcs"] = funcs
+        out.append((what, m, Render(random.Random(3), noisy=False, stable=True).source(m)))
     return out
 
 
@@ -2201,6 +2546,11 @@ def falsify(ctx, hints):
         fs, _ = pool.apply(_session_worker, ((session_probe(), 99),))
     info["probes"]["session"] = "ok" if not fs else fs[0].what[:160]
     fails += fs
+    # 1d. a fixed session of one source text compiled with contexts that bind the user functions to other callables
+    with mp.get_context("fork").Pool(1) as pool:
+        fs, _ = pool.apply(_session_worker, ((functions_probe(), 4711),))
+    info["probes"]["session-functions"] = "ok" if not fs else fs[0].what[:160]
+    fails += fs
     # 2. inputs on which model and implementation disagreed (with what was compiled before them in the same process)
     for d in hints.get("disagreements", [])[:10]:
         inp = d.get("input") or {}
@@ -2235,8 +2585,11 @@ def replay(ctx, failure: dict):
     inp = failure.get("input") or {}
     if "session" in inp:
         sess = [(x["what"], x["model"], x["source"]) for x in inp["session"]]
+        for x, (_w, mdl, _s) in zip(inp["session"], sess):
+            if x.get("functions") and "funcs" not in mdl:
+                mdl["funcs"] = x["functions"]
         for f in check_session(sess, inp.get("data_seed", 1)):
-            if f.input["failing"] == inp.get("failing"):
+            if f.input["failing"] == inp.get("failing") and f.input.get("how") == inp.get("how"):
                 return Failure(failure["key"], f.what, f.input, f.observed, f.required, f.repro)
         return None
     if "model" in inp and "source" in inp:
